@@ -1,12 +1,79 @@
 mod enc;
 mod fd;
 mod gen;
+mod hufcodec;
 mod frames;
 mod fsecodec;
 mod ring;
 mod util;
 
+use std::alloc::{GlobalAlloc, Layout, System};
+use std::sync::atomic::{AtomicUsize, Ordering};
+
+/// Counting allocator: live bytes and their peak (C05, C11 measure what a call allocates).
+struct Counting;
+static LIVE: AtomicUsize = AtomicUsize::new(0);
+static PEAK: AtomicUsize = AtomicUsize::new(0);
+static BIGGEST: AtomicUsize = AtomicUsize::new(0);
+static CAP: AtomicUsize = AtomicUsize::new(12 << 30);
+unsafe impl GlobalAlloc for Counting {
+    unsafe fn alloc(&self, l: Layout) -> *mut u8 {
+        // hard cap (VH_HEAP_CAP bytes, default 12 GiB): a runaway allocation of the code under test ends this process
+        // (allocation failure -> abort) instead of the sandbox
+        if LIVE.load(Ordering::Relaxed) + l.size() > CAP.load(Ordering::Relaxed) {
+            return std::ptr::null_mut();
+        }
+        let p = System.alloc(l);
+        if !p.is_null() {
+            let now = LIVE.fetch_add(l.size(), Ordering::Relaxed) + l.size();
+            PEAK.fetch_max(now, Ordering::Relaxed);
+            BIGGEST.fetch_max(l.size(), Ordering::Relaxed);
+        }
+        p
+    }
+    unsafe fn dealloc(&self, p: *mut u8, l: Layout) {
+        LIVE.fetch_sub(l.size(), Ordering::Relaxed);
+        System.dealloc(p, l)
+    }
+    unsafe fn realloc(&self, p: *mut u8, l: Layout, new: usize) -> *mut u8 {
+        if new > l.size() && LIVE.load(Ordering::Relaxed) + (new - l.size()) > CAP.load(Ordering::Relaxed) {
+            return std::ptr::null_mut();
+        }
+        let q = System.realloc(p, l, new);
+        if !q.is_null() {
+            if new > l.size() {
+                let now = LIVE.fetch_add(new - l.size(), Ordering::Relaxed) + new - l.size();
+                PEAK.fetch_max(now, Ordering::Relaxed);
+                BIGGEST.fetch_max(new, Ordering::Relaxed);
+            } else {
+                LIVE.fetch_sub(l.size() - new, Ordering::Relaxed);
+            }
+        }
+        q
+    }
+}
+#[global_allocator]
+static ALLOC: Counting = Counting;
+pub fn alloc_now() -> usize {
+    LIVE.load(Ordering::Relaxed)
+}
+pub fn alloc_peak() -> usize {
+    PEAK.load(Ordering::Relaxed)
+}
+pub fn alloc_biggest() -> usize {
+    BIGGEST.load(Ordering::Relaxed)
+}
+pub fn alloc_reset_peak() {
+    PEAK.store(LIVE.load(Ordering::Relaxed), Ordering::Relaxed);
+    BIGGEST.store(0, Ordering::Relaxed);
+}
+
 fn main() {
+    if let Ok(c) = std::env::var("VH_HEAP_CAP") {
+        if let Ok(v) = c.parse::<usize>() {
+            CAP.store(v, Ordering::Relaxed);
+        }
+    }
     let args: Vec<String> = std::env::args().collect();
     if args.len() < 2 {
         eprintln!("usage: vh <command> ...");
@@ -24,6 +91,8 @@ fn main() {
         "mfexec" => fd::mfexec(rest),
         "truncsweep" => fd::truncsweep(rest),
         "realtrunc" => fd::realtrunc(rest),
+        "c05exec" => fd::c05exec(rest),
+        "c05case" => fd::c05case(rest),
         "mkcorpus" => gen::mkcorpus(rest),
         "encexec" => enc::encexec(rest),
         "encgraph" => enc::encgraph(rest),
